@@ -240,6 +240,10 @@ func (p *parser) readType() (t Type, err error) {
 			if t, err = p.readType(); err != nil {
 				return
 			}
+			if t == nil {
+				// '[]' or '[,]', a list needs the type of its elements.
+				return nil, parseError(p.line, p.col, "list element type missing")
+			}
 			b, err = p.skipSpace()
 			switch {
 			case err != nil:
